@@ -177,6 +177,12 @@ SKELETONS = {
         [4, 6],
         3,
     ),
+    # one scope {a,b,c} split two ways over the SAME three leaves: {a,b}|{c} and {a}|{b,c}
+    "TWOWAYS3": (
+        [("leaf", 0), ("leaf", 1), ("leaf", 2), ("prod", [0, 1]), ("sum", [3]), ("prod", [4, 2]), ("prod", [1, 2]), ("sum", [6]), ("prod", [0, 7]), ("sum", [5, 8])],
+        [9],
+        3,
+    ),
     "SUMMIX": (
         [("leaf", 0), ("leaf", 1), ("leaf", 2), ("leaf", 3), ("prod", [0, 1]), ("prod", [2, 3]), ("sum", [4]), ("sum", [5]), ("prod", [6, 7]), ("sum", [8])],
         [9],
